@@ -55,6 +55,7 @@ ApplyFe(s, e) ==
        [] e.op = "square_repeatdly" -> put(FoldLeft(LAMBDA acc, i: FSq(acc), a, Rng(1, e.n)))
        [] e.op = "invert" -> put(FInv(a))
        [] e.op = "pow25523" -> put(FPow22523(a))
+       [] e.op = "recanon" -> put(a)                      \* Fe::from_bytes(x.to_bytes()): the same field value
        [] e.op = "is_negative" -> [st |-> s, out |-> Bool(FIsNeg(a))]
        [] e.op = "is_nonzero" -> [st |-> s, out |-> Bool(a # FZero)]
        [] e.op = "eq" -> [st |-> s, out |-> Bool(a = b)]
